@@ -162,6 +162,7 @@ func NewFullRT(h host.Host, protocolPrefix protocol.ID, options ...Option) (*Ful
 		EnableValues:     true,
 		ProtocolPrefix:   protocolPrefix,
 		MsgSenderBuilder: net.NewMessageSenderImpl,
+		BucketSize:       amino.DefaultBucketSize,
 	}
 
 	if err := dhtcfg.Apply(fullrtcfg.dhtOpts...); err != nil {
@@ -173,6 +174,9 @@ func NewFullRT(h host.Host, protocolPrefix protocol.ID, options ...Option) (*Ful
 
 	if err := dhtcfg.Validate(); err != nil {
 		return nil, err
+	}
+	if dhtcfg.BucketSize < 1 {
+		return nil, fmt.Errorf("bucket size must be at least 1; got: %d", dhtcfg.BucketSize)
 	}
 
 	ms := dhtcfg.MsgSenderBuilder(h, amino.Protocols)
